@@ -244,6 +244,13 @@ class TransactionManager(Elaboratable):
                 if (common_ancestors := longest_common_prefix(call1.ancestors, call2.ancestors))
             )
 
+        def calls_exclusive(trans: TBody, elem1: Body, elem2: Body):
+            if elem1 is trans or elem2 is trans:
+                return False
+            calls1 = method_map.info_by_call[(trans, MBody(elem1))]
+            calls2 = method_map.info_by_call[(trans, MBody(elem2))]
+            return all(call_paths_exclusive(call1.call_path, call2.call_path) for call1 in calls1 for call2 in calls2)
+
         cgr: TransactionGraph = {}  # Conflict graph
         pgr: TransactionGraph = {}  # Priority graph
 
@@ -284,6 +291,11 @@ class TransactionManager(Elaboratable):
                     conflict = relation.conflict and not TransactionManager._transactions_exclusive(
                         method_map, trans_start, trans_end
                     )
+                    if conflict and trans_start is trans_end and not calls_exclusive(trans_start, start, end):
+                        raise RuntimeError(
+                            f"Transaction '{trans_start.name}' {trans_start.src_loc} uses both '{start.name}' "
+                            f"{start.src_loc} and '{end.name}' {end.src_loc}, which are in conflict"
+                        )
                     add_edge(trans_start, trans_end, relation.priority, conflict)
 
         porder: PriorityOrder = {}
